@@ -121,6 +121,7 @@ type Explorer struct {
 	Cov        map[*ssa.BasicBlock]struct{}
 	TraceVecs  [][]int64 // vectors kept for trace validation
 	TraceObs   [][]string
+	CutVecs    [][]int64 // one concrete representative per cut path, replayed natively for its assertions only
 	EngineErrs map[string]int64
 	Truncated  bool
 	AssumeKills int64
@@ -190,7 +191,7 @@ func (ex *Explorer) Run() error {
 		wg.Add(1)
 		go func() {
 			defer wg.Done()
-			s, err := NewSolver(ex.solverK, nil)
+			s, err := acquireSolver(ex.solverK)
 			if err != nil {
 				errs <- err
 				ex.mu.Lock()
@@ -199,7 +200,8 @@ func (ex *Explorer) Run() error {
 				ex.cond.Broadcast()
 				return
 			}
-			defer s.Close()
+			q0, u0, s0, k0, t0 := s.Queries, s.UnsatN, s.SatN, s.UnkN, s.Time
+			defer releaseSolver(s)
 			for {
 				it, ok := ex.pop()
 				if !ok {
@@ -209,11 +211,11 @@ func (ex *Explorer) Run() error {
 				ex.done()
 			}
 			ex.mu.Lock()
-			ex.Queries += int64(s.Queries)
-			ex.UnsatN += int64(s.UnsatN)
-			ex.SatN += int64(s.SatN)
-			ex.UnkN += int64(s.UnkN)
-			ex.SolverTime += s.Time
+			ex.Queries += int64(s.Queries - q0)
+			ex.UnsatN += int64(s.UnsatN - u0)
+			ex.SatN += int64(s.SatN - s0)
+			ex.UnkN += int64(s.UnkN - k0)
+			ex.SolverTime += s.Time - t0
 			ex.mu.Unlock()
 		}()
 	}
@@ -304,6 +306,9 @@ func (ex *Explorer) runPath(s *Solver, it workItem) {
 		if len(ex.Cands[k]) < 3 {
 			ex.Cands[k] = append(ex.Cands[k], c)
 		}
+	}
+	if (end.kind == endCut || end.kind == endEngine || end.kind == endInconclusive) && len(ex.CutVecs) < 3000 {
+		ex.CutVecs = append(ex.CutVecs, vec)
 	}
 	if end.kind == endReturn || end.kind == endPanic {
 		if len(ex.Samples) < 12 || (ex.Paths%97 == 0 && len(ex.Samples) < 40) {
